@@ -13,6 +13,7 @@ REPLAYS = os.path.join(VERIF, "replays")
 EVID = os.path.join(VERIF, "evidence")
 REPO = "/repo"
 JAVA_OPTS = "-Xss1g"
+JAVA_OPTS_TRACE = "-Xss1g -Xmx5g"      # trace validation: many TLC processes run side by side
 NCPU = os.cpu_count() or 8
 
 
@@ -311,7 +312,7 @@ def start_trace_tlc(mode, trace, nobj, variant, props, tag):
         f.write(trace_cfg(mode, nobj, variant, props))
     env = dict(os.environ)
     env["TRACE"] = trace
-    env["JAVA_TOOL_OPTIONS"] = JAVA_OPTS
+    env["JAVA_TOOL_OPTIONS"] = JAVA_OPTS_TRACE
     outp = os.path.join(d, "tlc.out")
     fo = open(outp, "w")
     p = subprocess.Popen(["tlc", "-workers", "1", "-metadir", os.path.join(d, "meta"), "-cleanup", "-noGenerateSpecTE",
@@ -567,7 +568,8 @@ def run_check(prop, tier, seed, replay):
                 script_files.append(("tlc-sim-%s-%d" % (fam, c["nobj"]), scr, c["nobj"]))
             # 3. random histories generated by the harness itself (implementation -> specification)
             dv = T["drive"]
-            k = max(1, T["chunks"] // len(P["fams"]))
+            per_fam = max(1, dv["scripts"] // len(P["fams"]))
+            k = max(1, T["chunks"] // len(P["fams"]), (per_fam * dv["length"]) // 8000)
             for ci in range(k):
                 sp = os.path.join(wd, "drive_%s_%d.ndjson" % (fam, ci))
                 tp = os.path.join(wd, "drive_%s_%d.trace" % (fam, ci))
@@ -606,7 +608,8 @@ def run_check(prop, tier, seed, replay):
             continue
         nscripts += len(lines)
         samples.append(dict(source=label, script=fmt_script(json.loads(lines[min(3, len(lines) - 1)]))))
-        k = max(1, min(T["chunks"], len(lines) // 60 + 1))
+        calls = sum(l.count('"op"') // 2 for l in lines[:20]) / max(1, min(20, len(lines)))   # calls per script (each op has a nested d.op)
+        k = max(1, min(T["chunks"], len(lines) // 60 + 1), int(len(lines) * calls) // 8000)
         for ci in range(k):
             part = lines[ci::k]
             sp = os.path.join(wd, "%s_%d.ndjson" % (label, ci))
@@ -647,7 +650,7 @@ def run_check(prop, tier, seed, replay):
     viols = []
     drift = []
     nlines = 0
-    maxpar = max(2, NCPU - 2)
+    maxpar = max(2, min(NCPU - 4, 10))
     jobs = []
     for i, t in enumerate(traces):
         jobs.append(("mon", t, i))
